@@ -46,14 +46,14 @@ class Gen:
                                     f"x = x + 1.0", f"b({ix}) = a({ix}) * 0.5"]))
 
     def transfer(self, in_loop, avail, dname):
-        """a control-transfer statement that is legal here (`dname`: construct name of the innermost
-        enclosing loop if it has one)"""
+        """a control-transfer statement that is legal here (`dname`: construct names of the enclosing
+        named DOs, innermost last — EXIT/CYCLE may name any of them: multi-level)"""
         r = self.rng
         opts = [("ret",)] * 2
         if in_loop:
             opts += [("exit",)] * 4 + [("cycle",)] * 3
-        if dname:
-            opts += [("exitn", dname)] * 3 + [("cyclen", dname)] * 2
+        for nm in (dname or []):
+            opts += [("exitn", nm)] * 2 + [("cyclen", nm)] * 2
         opts += [("goto", L) for L in avail] * 4
         t = r.choice(opts)
         self.features.add({"exitn": "exit", "cyclen": "cycle"}.get(t[0], t[0]))
@@ -84,7 +84,8 @@ class Gen:
             v = LOOPVARS[len(loopvars)]
             name = f"nm{self.next_name}"
             self.next_name += 1
-            body = self.stmts(depth + 1, loopvars + [v], 0, labels, dname=name, cbdepth=cbdepth + 1)
+            body = self.stmts(depth + 1, loopvars + [v], 0, labels, dname=(dname or []) + [name],
+                              cbdepth=cbdepth + 1)
             ref = ("if", self.cond(loopvars + [v]), [r.choice([("exitn", name), ("cyclen", name)])], None, True)
             body.insert(r.randint(0, len(body)), ref)    # the name must be referenced
             return ("ndo", name, v, body)
@@ -226,9 +227,22 @@ def emit(stmts, ind=2):
     return lines
 
 
-def source_of(stmts, name="work"):
+def source_of(stmts, name="work", extra_decl=None):
     return "\n".join([f"subroutine {name}(a, b, n)", "  integer :: n, i, j, k, c1, c2", "  real :: a(n), b(n)",
-                      "  real :: x", "  x = 0.0"] + emit(stmts) + [f"end subroutine {name}", ""])
+                      "  real :: x"] + ([f"  real :: {extra_decl}"] if extra_decl else []) + ["  x = 0.0"]
+                     + emit(stmts) + [f"end subroutine {name}", ""])
+
+
+def clash_names(kind):
+    p = PREFIXES[kind]
+    return [f"{p}_psydatatype", f"{p}_psy_data_mod"]
+
+
+def clash_of(src, kind):
+    """the routine declares a symbol whose name is that of the PSyData type or module of this kind"""
+    decl = " ".join(ln.split("::", 1)[1] for ln in src.lower().splitlines() if "::" in ln and "type(" not in ln)
+    names = set(re.findall(r"[a-z_][a-z0-9_]*", decl))
+    return any(n in names for n in clash_names(kind))
 
 
 def gen_program(rng):
@@ -240,18 +254,32 @@ def gen_program(rng):
         if attempt == 5 or (f & {"do", "while", "cb-ndo"} and f & {"exit", "cycle", "goto", "ret"}) \
                 or rng.random() < 0.1:
             break
-    return source_of(body), sorted(g.features)
+    extra = None
+    if rng.random() < 0.12:
+        extra = rng.choice(clash_names(rng.randrange(4)))
+        g.features.add("clash")
+    return source_of(body, extra_decl=extra), sorted(g.features)
 
 
 # ------------------------------------------------------------------ real tree -> model S-expression
+VAR_RE = re.compile(r"^(profile|extract|nan_test|read_only_verify)_psy_data(?:_(\d+))?$")
+
+
 class Ids:
-    """names -> small Nat ids (first-come numbering), kept for the replay files"""
+    """names -> Nat ids.  PSyData variables follow the scheme of the model (`C28.nextVar`):
+    `<prefix>_psy_data` has id `kind`, `<prefix>_psy_data_n` has id `4*n + kind`; module/region/routine
+    names are numbered first-come."""
 
     def __init__(self):
         self.vars, self.names = {}, {}
 
     def var(self, name):
-        return self.vars.setdefault(name, len(self.vars))
+        m = VAR_RE.match(name.lower())
+        if not m:
+            raise ValueError(f"C28 abstraction: unexpected PSyData variable name {name}")
+        v = 4 * int(m.group(2) or 0) + PREFIXES.index(m.group(1))
+        self.vars[name.lower()] = v
+        return v
 
     def name(self, text):
         return self.names.setdefault(text, len(self.names))
@@ -260,14 +288,26 @@ class Ids:
 CALL_RE = re.compile(r"CALL\s+(\w+)\s*%\s*(\w+)\s*(?:\((.*)\))?\s*$", re.I | re.S)
 
 
-def abs_fp_list(nodes, ids, lowered_names):
+def abs_fp_list(nodes, ids, lowered_names, dostack=()):
     out = []
     for nd in nodes:
-        out += abs_fp(nd, ids, lowered_names)
+        out += abs_fp(nd, ids, lowered_names, dostack)
     return out
 
 
-def abs_fp(nd, ids, lowered_names=None):
+def exit_level(nd, dostack):
+    """EXIT/CYCLE [name] -> number of DO constructs (of this CodeBlock) between the statement and the
+    loop it belongs to"""
+    if nd.items[1] is None:
+        return 0
+    name = nd.items[1].string.lower()
+    inner_first = list(reversed(dostack))
+    if name not in inner_first:
+        raise ValueError(f"C28 abstraction: EXIT/CYCLE names '{name}', which is not a DO construct of its CodeBlock")
+    return inner_first.index(name)
+
+
+def abs_fp(nd, ids, lowered_names=None, dostack=()):
     """one fparser2 node of a CodeBlock -> model statements.  Block constructs kept as CodeBlocks are
     opened up: ASSOCIATE / BLOCK are statement lists of the enclosing list (their opening statement is
     a step), IF constructs and one-line IFs are `if`, SELECT CASE is a chain of `if`, DO constructs are
@@ -281,11 +321,11 @@ def abs_fp(nd, ids, lowered_names=None):
     if isinstance(nd, F.Comment):
         return []
     if isinstance(nd, F.Exit_Stmt):
-        out.append("exit")
+        out.append(["exit", exit_level(nd, dostack)])
     elif isinstance(nd, F.Cycle_Stmt):
-        out.append("cycle")
+        out.append(["cycle", exit_level(nd, dostack)])
     elif isinstance(nd, F.Return_Stmt):
-        out.append("ret")
+        out.append("retcb")
     elif isinstance(nd, F.Goto_Stmt):
         out.append(["goto", int(str(nd.items[0]))])
     elif isinstance(nd, F.Continue_Stmt):
@@ -303,22 +343,25 @@ def abs_fp(nd, ids, lowered_names=None):
         # PreDeclareVariable, PreEndDeclaration, ProvideVariable, PreEnd, PostStart:
         # straight-line helper calls, not events
     elif isinstance(nd, F.If_Stmt):
-        out.append(["if", ["b"] + abs_fp(nd.items[1], ids, lowered_names), ["b"]])
+        out.append(["if", ["b"] + abs_fp(nd.items[1], ids, lowered_names, dostack), ["b"]])
     elif isinstance(nd, F.If_Construct):
-        out.append(abs_branches(nd.content[1:-1], (F.Else_If_Stmt, F.Else_Stmt), F.Else_Stmt, ids, lowered_names))
+        out.append(abs_branches(nd.content[1:-1], (F.Else_If_Stmt, F.Else_Stmt), F.Else_Stmt, ids, lowered_names,
+                                dostack))
     elif isinstance(nd, F.Case_Construct):
         body = nd.content[1:-1]
         if body and not isinstance(body[0], F.Case_Stmt):
             raise ValueError("C28 abstraction: unexpected SELECT CASE layout")
         out.append("b1")       # evaluation of the selector
-        out += abs_cases(body, ids, lowered_names)
+        out += abs_cases(body, ids, lowered_names, dostack)
     elif isinstance(nd, (F.Block_Nonlabel_Do_Construct, F.Block_Label_Do_Construct)):
         out.append("b1")       # evaluation of the loop control
-        out.append(["do", ["b"] + abs_fp_list(nd.content[1:-1], ids, lowered_names)])
+        item = nd.content[0].item
+        name = (item.name if item is not None and item.name else "").lower()
+        out.append(["do", 0, ["b"] + abs_fp_list(nd.content[1:-1], ids, lowered_names, tuple(dostack) + (name,))])
     elif type(nd).__name__ in ("Associate_Construct", "Block_Construct"):
         out.append("b1")       # ASSOCIATE evaluates its selectors
         out += abs_fp_list([c for c in nd.content[1:-1] if not isinstance(c, F.Specification_Part)],
-                           ids, lowered_names)
+                           ids, lowered_names, dostack)
     elif isinstance(nd, BlockBase):
         raise ValueError(f"C28 abstraction: unexpected block construct {type(nd).__name__} in a CodeBlock")
     else:
@@ -326,7 +369,7 @@ def abs_fp(nd, ids, lowered_names=None):
     return out
 
 
-def abs_branches(body, separators, else_type, ids, lowered_names):
+def abs_branches(body, separators, else_type, ids, lowered_names, dostack=()):
     """IF construct body -> nested (if THEN ELSE)"""
     first, rest = [], None
     for k, c in enumerate(body):
@@ -334,16 +377,16 @@ def abs_branches(body, separators, else_type, ids, lowered_names):
             rest = (c, body[k + 1:])
             break
         first.append(c)
-    then = ["b"] + abs_fp_list(first, ids, lowered_names)
+    then = ["b"] + abs_fp_list(first, ids, lowered_names, dostack)
     if rest is None:
         return ["if", then, ["b"]]
     sep, tail = rest
     if isinstance(sep, else_type):
-        return ["if", then, ["b"] + abs_fp_list(tail, ids, lowered_names)]
-    return ["if", then, ["b", abs_branches(tail, separators, else_type, ids, lowered_names)]]
+        return ["if", then, ["b"] + abs_fp_list(tail, ids, lowered_names, dostack)]
+    return ["if", then, ["b", abs_branches(tail, separators, else_type, ids, lowered_names, dostack)]]
 
 
-def abs_cases(body, ids, lowered_names):
+def abs_cases(body, ids, lowered_names, dostack=()):
     """CASE blocks -> list with a chain of `if` (CASE DEFAULT is the final else, wherever it is written)"""
     from fparser.two import Fortran2003 as F
     blocks, cur = [], None
@@ -355,12 +398,12 @@ def abs_cases(body, ids, lowered_names):
             cur[1].append(c)
     default = [b for b in blocks if "DEFAULT" in str(b[0]).upper()]
     normal = [b for b in blocks if "DEFAULT" not in str(b[0]).upper()]
-    tail = ["b"] + (abs_fp_list(default[0][1], ids, lowered_names) if default else [])
+    tail = ["b"] + (abs_fp_list(default[0][1], ids, lowered_names, dostack) if default else [])
     if not normal:
         return tail[1:]
     chain = None
     for b in reversed(normal):
-        then = ["b"] + abs_fp_list(b[1], ids, lowered_names)
+        then = ["b"] + abs_fp_list(b[1], ids, lowered_names, dostack)
         chain = ["if", then, tail if chain is None else ["b", chain]]
     return [chain]
 
@@ -371,7 +414,7 @@ def abs_codeblock(cb, ids, lowered_names=None):
 
 def abs_node(node, ids, lowered_names=None):
     from psyclone.psyir.nodes import (Assignment, Call, CodeBlock, IfBlock, Loop, WhileLoop, Return,
-                                      PSyDataNode)
+                                      PSyDataNode, RegionDirective)
     if isinstance(node, PSyDataNode):
         return [["reg", ids.var(node.var_name.lower()), KINDS[type(node).__name__],
                  reg_name(node, ids), abs_sched(node.psy_data_body, ids, lowered_names)]]
@@ -381,12 +424,32 @@ def abs_node(node, ids, lowered_names=None):
         return [["if", abs_sched(node.if_body, ids, lowered_names),
                  abs_sched(node.else_body, ids, lowered_names) if node.else_body is not None else ["b"]]]
     if isinstance(node, (Loop, WhileLoop)):
-        return [["do", abs_sched(node.loop_body, ids, lowered_names)]]
+        return [["do", 1 if isinstance(node, Loop) else 0, abs_sched(node.loop_body, ids, lowered_names)]]
+    if isinstance(node, RegionDirective):
+        return [["dir", dir_num(node), abs_sched(node.dir_body, ids, lowered_names)]]
     if isinstance(node, Return):
         return ["ret"]
     if isinstance(node, (Assignment, Call)):
         return ["b0"]
     raise ValueError(f"C28 abstraction: unexpected node {type(node).__name__}")
+
+
+def dir_num(node):
+    from psyclone.psyir import nodes as N
+    for cls, num in ((N.OMPParallelDoDirective, 2), (N.OMPParallelDirective, 0), (N.OMPDoDirective, 1),
+                     (N.ACCParallelDirective, 3), (N.ACCLoopDirective, 4), (N.ACCKernelsDirective, 5)):
+        if isinstance(node, cls):
+            return num
+    raise ValueError(f"C28 abstraction: unexpected directive {type(node).__name__}")
+
+
+def make_dir(num, children):
+    from psyclone.psyir import nodes as N
+    cls = [N.OMPParallelDirective, N.OMPDoDirective, N.OMPParallelDoDirective, N.ACCParallelDirective,
+           N.ACCLoopDirective, N.ACCKernelsDirective][num]
+    if cls is N.OMPParallelDirective:
+        return cls.create(children=children)      # adds the default/private clauses
+    return cls(children=children)
 
 
 def reg_name(node, ids):
@@ -415,12 +478,14 @@ def child_sched(node, sel):
         return node.loop_body
     if sel == "reg":
         return node.psy_data_body
+    if sel == "dir":
+        return node.dir_body
     raise ValueError(sel)
 
 
 def schedules(sched, path=()):
     """all (path, Schedule) below and including `sched`; a path is a tuple of (index, selector)"""
-    from psyclone.psyir.nodes import IfBlock, Loop, WhileLoop, PSyDataNode
+    from psyclone.psyir.nodes import IfBlock, Loop, WhileLoop, PSyDataNode, RegionDirective
     yield path, sched
     for i, node in enumerate(sched.children):
         sels = []
@@ -430,6 +495,8 @@ def schedules(sched, path=()):
             sels = ["do"]
         elif isinstance(node, PSyDataNode):
             sels = ["reg"]
+        elif isinstance(node, RegionDirective):
+            sels = ["dir"]
         for sel in sels:
             yield from schedules(child_sched(node, sel), path + ((i, sel),))
 
@@ -447,7 +514,10 @@ def frames_of(routine, path, ids):
     for i, sel in path:
         node = sched.children[i]
         if sel == "do":
-            how = "do"
+            from psyclone.psyir.nodes import Loop
+            how = ["do", 1 if isinstance(node, Loop) else 0]
+        elif sel == "dir":
+            how = ["dir", dir_num(node)]
         elif sel == "if0":
             how = ["if0", abs_sched(node.else_body, ids) if node.else_body is not None else ["b"]]
         elif sel == "if1":
